@@ -16,6 +16,7 @@ import (
 	"sync"
 	"sync/atomic"
 	"testing"
+	"time"
 
 	mocker "github.com/tencent/goom"
 	"github.com/tencent/goom/arg"
@@ -484,6 +485,69 @@ func TestC19(t *testing.T) {
 			})
 			rec("iface self-referential context -> %d %d %d %d", r1, r2, j2.Get(k, "x"), j2.Get(k, "y"))
 		})
+		// mocker objects kept across the builder's Reset and applied through again, then Reset once more
+		try("kept objects across Reset", func() {
+			kb := mocker.Create()
+			fm := kb.Func(F1)
+			mm := kb.Struct(&T{}).Method("M")
+			vm := kb.Var(&keptVar19)
+			keptVar19 = "origin"
+			for round := 1; round <= 3; round++ {
+				fm.Apply(func(a int) int { return 100*round + a })
+				mm.Apply(func(t *T, a int, s string) int { return 200*round + a })
+				vm.Set(fmt.Sprint("round", round))
+				rec("kept objects round %d: mocked -> %d %d %s", round, F1(k), (&T{v: 1}).M(k, "m"), keptVar19)
+				kb.Reset()
+				rec("kept objects round %d: after Reset -> %d %d %s", round, F1(k), (&T{v: 1}).M(k, "m"), keptVar19)
+			}
+		})
+		// the console cannot be written to (a closed capture file in os.Stdout): whatever logging does about that, the
+		// mocked call comes back with the callback's result
+		try("console unwritable", func() {
+			cb := mocker.Create()
+			defer cb.Reset()
+			saved := os.Stdout
+			f, err := os.CreateTemp("", "c19-closed")
+			if err != nil {
+				rec("console unwritable: no temp file")
+				return
+			}
+			os.Remove(f.Name())
+			f.Close()
+			done := make(chan string, 1)
+			os.Stdout = f
+			go func() {
+				defer func() {
+					if r := recover(); r != nil {
+						done <- fmt.Sprintf("panic %v", r)
+					}
+				}()
+				cb.Func(F1).Apply(func(a int) int { return a + 9000 })
+				r := F1(k)
+				cb.Reset()
+				done <- fmt.Sprintf("%d then %d", r, F1(k))
+			}()
+			var out string
+			select {
+			case out = <-done:
+			case <-time.After(time.Duration(vmon.EnvInt("VERIF_C19_CONSOLE_WAIT_S", 20)) * time.Second):
+				out = "no answer (the call never came back)"
+			}
+			os.Stdout = saved
+			rec("console unwritable -> %s", out)
+			if strings.HasPrefix(out, "no answer") {
+				// a goroutine is stuck inside the log path for good; nothing that follows (a collection, for one) can
+				// be trusted to finish: hand in what was observed and end the process here
+				if tp := os.Getenv("VERIF_C19_TRANSCRIPT"); tp != "" {
+					os.WriteFile(tp, []byte(strings.Join(lines, "\n")+"\n"), 0o644)
+				}
+				rep.Eval(1)
+				rep.Class("mode/" + mode)
+				rep.Class("console-unwritable/hung")
+				rep.Write()
+				os.Exit(0)
+			}
+		})
 		try("iface unmocked method", func() {
 			var j I
 			b2 := mocker.Create()
@@ -709,3 +773,5 @@ var (
 
 	tinyPlaceholders = []*func(int) int{&tinyPh0, &tinyPh1, &tinyPh2, &tinyPh3, &tinyPh4, &tinyPh5}
 )
+
+var keptVar19 = "origin"
